@@ -28,7 +28,7 @@ class VarLenArray:
                 return self.__class__(np.concatenate(arrays))
             ret = np.zeros_like(self.array, shape=(sum(lens), max_size), dtype=np.result_type(*arrays))
             for end, l, a, size in zip(accumulate(lens), lens, arrays, sizes):
-                ret[end - l : end, -size:] = a
+                ret[end - l : end, max_size - size:] = a
             return self.__class__(ret)
         if func == np.equal:
             raise Exception()
